@@ -28,7 +28,7 @@ def sweep_project():
     from .c11 import EVERY_SPECIAL
     specials = [c for c in EVERY_SPECIAL if c not in "<>"]
     data = {}
-    for ns in ("common", "home"):
+    for ns in ("common", "user-home"):
         for l in ("en", "fr"):
             tree = [["k0", {"k": "raw", "v": "".join(specials if l == "en" else reversed(specials))}]]
             for i, ch in enumerate(specials):
@@ -37,13 +37,13 @@ def sweep_project():
             data[(ns, l)] = tree
     data[("vars", "en")] = [["k0", {"k": "raw", "v": "{{ x }}"}]]
     data[("vars", "fr")] = [["k0", {"k": "raw", "v": "{{ x }}"}]]
-    return {"cfg": {"default": "en", "locales": ["en", "fr"], "namespaces": ["common", "home", "vars"], "inherits": {}, "locales_dir": None}, "data": data}
+    return {"cfg": {"default": "en", "locales": ["en", "fr"], "namespaces": ["common", "user-home", "vars"], "inherits": {}, "locales_dir": None}, "data": data}
 
 
 def build_project(rng):
     nloc = rng.randint(2, 4)
     locales = rng.sample(["en", "fr", "de", "ja", "pt-BR", "ar"], nloc)
-    nss = rng.sample(["common", "home", "admin"], rng.randint(1, 3)) if rng.random() < 0.7 else None
+    nss = rng.sample(["common", "home", "admin", "user-profile", "a-b-c"], rng.randint(1, 3)) if rng.random() < 0.7 else None
     data = {}
     for ns in (nss or [None]):
         keys = ["k%d" % i for i in range(rng.randint(2, 5))]
